@@ -39,6 +39,7 @@ def plan(tier):
     nsh = 32
     tasks = [{"backend": "py", "mode": "roundtrip", "tier": tier, "maxlen": maxlen, "shard": s,
               "nshards": nsh} for s in range(nsh)]
+    tasks.append({"backend": "py", "mode": "long"})
     tasks.append({"backend": "py", "mode": "timeseries", "rmax": 3, "cmax": 4 if tier == "quick" else 5})
     tasks.append({"backend": "py", "mode": "strings"})
     tasks.append({"backend": "py", "mode": "files"})
@@ -48,6 +49,7 @@ def plan(tier):
                                  "separators": SEPS, "precisions": PRECS,
                                  "ignore_empty_lines": [True, False], "edge_forms": ["pair", "scalar"],
                                  "chain": "save -> load -> save -> load"},
+                   "long_trains": "round trips of trains with 999, 1000, 1001, 1500 and 5000 spikes",
                    "value_menu": VALUES,
                    "time_series": "all 0/1 matrices with r<=3 rows and c<=%d columns (incl. r=1, "
                                   "c=1) x 3 start/bin settings x separators"
@@ -393,7 +395,30 @@ def run_files(task):
     return r
 
 
+def run_long(task):
+    """long trains (more values than any 'summarise long arrays' threshold of a formatter)"""
+    r = Result()
+    d = tempfile.mkdtemp(prefix="verif_c19_", dir=TMPBASE)
+    try:
+        for n in (999, 1000, 1001, 1500, 5000):
+            long_train = [0.5 + 0.25 * i for i in range(n)]
+            edges = [0.0, 0.25 * n + 1.0]
+            for lst in ([long_train], [long_train, []], [[], long_train, [1.0]]):
+                for si, sep in enumerate(SEPS[:2]):
+                    for prec in (3, 17):
+                        r.states += 1
+                        r.transitions += 4
+                        r.sigs.add(hash((n, len(lst), sep, prec)))
+                        roundtrip(r, d, lst, sep, prec, False, edges, (n, len(lst), si, prec))
+        r.sample({"mode": "long", "spikes_per_train": [999, 1000, 1001, 1500, 5000]})
+    finally:
+        shutil.rmtree(d, ignore_errors=True)
+    return r
+
+
 def run_task(task):
+    if task["mode"] == "long":
+        return run_long(task)
     return {"roundtrip": run_roundtrip, "timeseries": run_timeseries, "strings": run_strings,
             "files": run_files}[task["mode"]](task)
 
